@@ -183,7 +183,7 @@ def gen_cases(rng, tier, ctx):
             t = max(t, 0)
         cases.append(_mk(h, r, c, t, nh, nl, dtype=rng.choice(['drv', 'drv64'])))
     # ---- histories driven through the real driver bookkeeping (fake instrument)
-    n_hist = 250 if not thorough else 6000
+    n_hist = 400 if not thorough else 8000
     cases.append({'kind': 'hist', 'total': 100000, 'ops': [
         ['upload', 1, [[11, 192], [12, 208]], False], ['upload', 2, [[12, 208], [13, 384]], False], ['remove', 1],
         ['upload', 3, [[14, 192], [12, 208], [15, 400]], False], ['upload', 2, [[16, 192]], True],
@@ -201,25 +201,35 @@ def _rand_hist(rng):
     npool = rng.choice([4, 8, 30])
     ops = []
     seen = []
+    known = []        # names that are probably uploaded (uploads may be refused; this only biases the choice)
     for _ in range(rng.randint(1, 12)):
         r = rng.random()
-        name = rng.randint(1, 4)
         if r < 0.55:
+            force = rng.random() < 0.35
+            free_names = [x for x in range(1, 6) if x not in known]
+            if known and (force or rng.random() < 0.15):
+                name = rng.choice(known)                      # re-upload of a known name (error unless force)
+            else:
+                name = rng.choice(free_names or [1])
             k = rng.choice([0, 1, 1, 2, 2, 3, 4])
             # new hashes, or (half of the time) hashes that were uploaded earlier in this history
             hs = [rng.choice(seen) if seen and rng.random() < 0.5 else rng.randint(1, npool) for _ in range(k)]
             seen.extend(hs)
             if rng.random() < 0.8:
                 hs = list(dict.fromkeys(hs))     # a program usually has distinct segments
-            ops.append(['upload', name, [[h, SEG_LEN[h]] for h in hs], rng.random() < 0.35])
-        elif r < 0.75:
-            ops.append(['remove', name])
+            ops.append(['upload', name, [[h, SEG_LEN[h]] for h in hs], force])
+            if name not in known:
+                known.append(name)
         elif r < 0.87:
-            ops.append(['free', name])
+            name = rng.choice(known) if known and rng.random() < 0.85 else rng.randint(1, 6)
+            ops.append(['remove' if r < 0.75 else 'free', name])
+            if name in known:
+                known.remove(name)
         elif r < 0.97:
             ops.append(['cleanup'])
         else:
             ops.append(['clear'])
+            known = []
     return {'kind': 'hist', 'total': total, 'ops': ops}
 
 
@@ -501,12 +511,20 @@ def classify(case, obs):
 
 def shrink(case, obs, ctx):
     """drop new segments / trailing slots while the Python oracle still rejects"""
-    def bad(c):
-        o = run_impl(c)
-        return o if py_spec(c, o) else None
-    cur, cur_obs = case, obs
-    if not py_spec(cur, cur_obs):
+    why0 = py_spec(case, obs)
+    if not why0:
         return case, obs
+    kind0 = why0.split(':')[0] if case['kind'] == 'place' else why0.split(':', 1)[-1].split()[0:2]
+
+    def bad(c):
+        # still rejected, and for the same reason class (same clause / same kind of history defect)
+        o = run_impl(c)
+        w = py_spec(c, o)
+        if not w or classify(c, o) is not None:
+            return None
+        k = w.split(':')[0] if c['kind'] == 'place' else w.split(':', 1)[-1].split()[0:2]
+        return o if k == kind0 else None
+    cur, cur_obs = case, obs
     if case['kind'] == 'hist':
         changed = True
         while changed:
